@@ -593,6 +593,9 @@ int main(int argc, char** argv) {
   }
   R.sample("{\"reader\":\"StreamReader<stringstream>\",\"source\":\"24436281a0\",\"history\":\"Read(byte);Skip(1);\",\"op\":\"Read(w2x2)\",\"expect\":\"StreamError (3 bytes remain)\"}");
   R.sample("{\"writer\":\"ConstexprBufferWriter\",\"capacity\":5,\"history\":\"Write(w2x2);\",\"op\":\"Skip(rem+1)\",\"expect\":\"WriteLimitReached, stream unchanged\"}");
+  // descriptor ownership seen by the in-memory descriptors: nothing may be read, written or closed after its close
+  if (g_fd_misuse)
+    R.viol("C17|descriptor-misuse", "C17|fd|misuse", std::to_string((unsigned long long)g_fd_misuse) + " system calls on descriptors that had already been closed (closed twice, or closed by a moved-from object)");
   R.finish();
   return R.violations ? 1 : 0;
 }
